@@ -74,24 +74,24 @@ theorem link_links (cfg : Cfg) (n : Net) (via : Via) (s r : Nat) (l : Link)
   unfold Net.link at hl
   split at hl
   · exact Or.inl hl
-  · exact Or.inl hl
-  · rename_i hg
-    dsimp only at hl
-    split at hl
-    · split at hl
-      · exact Or.inl hl
+  · split at hl
+    · exact Or.inl hl
+    · exact Or.inl hl
+    · rename_i hg
+      dsimp only at hl
+      split at hl
       · rcases List.mem_cons.mp hl with e | e
         · exact Or.inr ⟨e, hg⟩
         · exact Or.inl e
-    · split at hl
       · split at hl
+        · split at hl
+          · rcases List.mem_cons.mp hl with e | e
+            · exact Or.inr ⟨e, hg⟩
+            · exact Or.inl (List.mem_filter.mp e).1
+          · exact Or.inl hl
         · rcases List.mem_cons.mp hl with e | e
           · exact Or.inr ⟨e, hg⟩
           · exact Or.inl (List.mem_filter.mp e).1
-        · exact Or.inl hl
-      · rcases List.mem_cons.mp hl with e | e
-        · exact Or.inr ⟨e, hg⟩
-        · exact Or.inl (List.mem_filter.mp e).1
 
 /-- what the gate's yes means for a both-hinted pair with a strict receiver -/
 theorem gate_strict_typed (cfg : Cfg) (via : Via) (s r : Chan) (hs hr : Hint)
